@@ -77,6 +77,34 @@ func (w *World) stepwiseQuiesce(rec *Recording) error {
 	return fmt.Errorf("no quiescence")
 }
 
+// SecondRound runs another complete key generation (different round id, same participants and
+// machines) plus one signing batch on the recorded world and appends it to the recording.
+func (rec *Recording) SecondRound(t int, batch BatchSpec) (string, error) {
+	w := rec.W
+	idx := make([]int, w.N)
+	for i := range idx {
+		idx[i] = i
+	}
+	round, err := w.StartDKGOver(t, 0, idx, func(r *requests.SignatureProposalParticipantsListRequest) { r.CreatedAt = T0.Add(1000) })
+	if err != nil {
+		return "", err
+	}
+	if err := w.stepwiseQuiesce(rec); err != nil {
+		return "", err
+	}
+	for i, nd := range w.Nodes {
+		if st := nd.RoundState(round); st != "stage_signing_idle" {
+			return "", fmt.Errorf("node %d ended the second key generation in %q", i, st)
+		}
+	}
+	w.Propose(batch.Proposer, round, batch.ID, batch.Tasks)
+	if err := w.stepwiseQuiesce(rec); err != nil {
+		return "", err
+	}
+	rec.Log = w.Board.Log()
+	return round, nil
+}
+
 // RecordCeremony runs DKG(n,t) and the given signing batches and records everything.
 func RecordCeremony(n, t int, batches []BatchSpec) (*Recording, error) {
 	w, err := NewWorld(n)
